@@ -67,7 +67,7 @@ func (v VerifPJ) ChanState() (l, c int) {
 }
 
 // VerifHook is the callback type. pj identifies the parser instance.
-type VerifHook func(ev VerifEvent, pj VerifPJ, a, b uint64, buf *[indexSize]uint32)
+type VerifHook func(ev VerifEvent, pj VerifPJ, a, b uint64, buf []uint32)
 
 var verifHook atomic.Pointer[VerifHook]
 
@@ -95,7 +95,12 @@ func VerifChanState(pj *ParsedJson) (l, c int, ok bool) {
 
 func verifEvent(ev VerifEvent, pj *internalParsedJson, a, b uint64, buf *[indexSize]uint32) {
 	if h := verifHook.Load(); h != nil {
-		(*h)(ev, VerifPJ{pj}, a, b, buf)
+		// the buffer is handed over as a slice so that users do not depend on its size
+		var s []uint32
+		if buf != nil {
+			s = buf[:]
+		}
+		(*h)(ev, VerifPJ{pj}, a, b, s)
 	}
 }
 
